@@ -303,7 +303,7 @@ pub fn generate(g: &mut Gen) {
                 let mut chunks = gen_splits(r, &stream, &mut idx, &bounds);
                 let mut count = msgs.len();
                 let tag = match r.below(16) {
-                    0 => { let at = *r.pick(&bounds); let bad = *r.pick(&[0xffu8, 0x1c]); // ill-formed byte at a message boundary
+                    0 => { let at = *r.pick(&bounds); let bad = if proto == "localtxsubmission" { *r.pick(&[0xffu8, 0x1c, 0x61, 0x38, 0xc3, 0x9c]) } else { *r.pick(&[0xffu8, 0x1c]) }; // ill-formed byte at a message boundary (local-tx-submission: also bytes that reach its plain-string fallback)
                            let mut s = stream.clone(); s.insert(at, bad); let mut j = 0; chunks = gen_splits(r, &s, &mut j, &bounds); count = msgs.len(); "bad" }
                     1 => { let cut = r.below(stream.len() as u64 + 1) as usize; let mut j = 2; chunks = gen_splits(r, &stream[..cut], &mut j, &bounds); "trunc" }
                     _ => "valid",
